@@ -2,8 +2,9 @@ From Coq Require Import List Bool Ascii Arith NArith.
 From TxVerif Require Import Lib.Bytes Lib.Verdict Spec.C16.
 Import ListNotations.
 
-Record case := { k_docs : list (doc * list bytes); k_f1 : bool; k_f2 : bool; k_obs : list view;
+Record case := { k_docs : list (doc * list bytes); k_f2 : bool; k_obs : list view;
                  k_codec : list cobs }.
 
 Definition check (k : case) : verdict :=
+  if negb (forallb input_ok (k_docs k)) then VSkip else
   mk_verdict None (oracle (map fst (k_docs k)) (k_obs k) && forallb codec_ok (k_codec k)).
